@@ -23,30 +23,33 @@ GramOfLine(e) == [T |-> Range(e.terms) \cup {ErrName}, rules |-> e.rules]
 (* items of an event as <<rule, dot, origin>> for a set at position a *)
 ItemsOf(ev) == {<<ev.it[i][1], ev.it[i][2], ev.a - ev.it[i][3]>> : i \in DOMAIN ev.it}
 
-(* replay the events; syms[i] = symbol shifted into position i.  Returns the set of problems. *)
-RECURSIVE Replay(_, _, _, _, _)
-Replay(G, evs, i, syms, acc) ==
+(* replay the events; syms[i] = symbol shifted into position i, isets[i + 1] = the ideal set after syms[1..i] (kept along,
+   so that a line costs one closure per event).  Returns the set of problems. *)
+RECURSIVE Replay(_, _, _, _, _, _, _)
+Replay(A, N, evs, i, syms, isets, acc) ==
   IF i > Len(evs) THEN acc
   ELSE LET ev == evs[i] IN
-       IF ev.k \notin {1, 2} THEN Replay(G, evs, i + 1, syms, acc)
+       IF ev.k \notin {1, 2} THEN Replay(A, N, evs, i + 1, syms, isets, acc)
        ELSE IF ev.a = 0
-       THEN LET ideal == EarleySets(G, <<>>)[1]
+       THEN LET ideal == Closure(A, N, StartItems(A), 0, <<>>)
                 got == ItemsOf(ev)
-            IN Replay(G, evs, i + 1, <<>>,
+            IN Replay(A, N, evs, i + 1, <<>>, <<ideal>>,
                       acc \cup (IF got \subseteq ideal THEN {} ELSE {"C01: start set holds an item that is not a valid Earley item"})
                           \cup (IF got # ideal /\ ev.e = 0 THEN {"DIAG: start set differs from the ideal set at lookahead 0"} ELSE {}))
-       ELSE IF ev.a > Len(syms) + 1 THEN acc \cup {"C01: a set was placed beyond the end of the parser list"}
+       ELSE IF ev.a > Len(syms) + 1 \/ ev.a > Len(isets) THEN acc \cup {"C01: a set was placed beyond the end of the parser list"}
        ELSE LET u == SubSeq(syms, 1, ev.a - 1) \o <<ev.f>>
-                ideal == EarleySets(G, u)[ev.a + 1]
+                prev == SubSeq(isets, 1, ev.a)
+                ideal == Closure(A, N, Scan(A, prev[ev.a], ev.f), ev.a, prev)
                 got == ItemsOf(ev)
                 bad == ~(got \subseteq ideal)
-            IN Replay(G, evs, i + 1, IF ev.k = 1 THEN u ELSE syms,
+            IN Replay(A, N, evs, i + 1, IF ev.k = 1 THEN u ELSE syms, IF ev.k = 1 THEN Append(prev, ideal) ELSE isets,
                       acc \cup (IF bad THEN {IF ev.k = 2 THEN "C09: the fresh re-computation of a reused set holds an item that is not a valid Earley item"
                                                        ELSE IF ev.c = 1 THEN "C09: a set reused from the cache holds an item that is not valid at this position"
                                                        ELSE "C01: a placed set holds an item that is not a valid Earley item"} ELSE {})
-                          \cup (IF ~bad /\ got # ideal /\ ev.e = 0 THEN {"DIAG: set differs from the ideal set at lookahead 0"} ELSE {}))
+                          \cup (IF ~bad /\ got # ideal /\ ev.e = 0 /\ ~(\E x \in acc : SubSeq(x, 1, 4) = "DIAG")
+                                THEN {"DIAG: set differs from the ideal set at lookahead 0 at event " \o ToString(i)} ELSE {}))
 
-Problems(e) == Replay(GramOfLine(e), e.ev, 1, <<>>, {})
+Problems(e) == (LET A == AugE(GramOfLine(e)) IN Replay(A, Nullable(A), e.ev, 1, <<>>, <<>>, {}))
                \cup (IF \E i \in DOMAIN e.ev : e.ev[i].k = 1 /\ ~PlBound(e.n + 1, e.ev[i].a + 1)
                      THEN {"C07: the parser list grew beyond 2 * (tokens + 1)"} ELSE {})
 
